@@ -523,7 +523,11 @@ def apply_summary(path, mutations):
             elif c == 'gd_flags':
                 if not fs.has_gdcsum: continue
                 base = img.gd_off(g); old = int.from_bytes(img.rd(base + 0x12, 2), 'little')
-                new = old ^ 4   # ITABLE_ZEROED only: toggling *_UNINIT can hide live objects
+                # ITABLE_ZEROED, or INODE_UNINIT / BLOCK_UNINIT (also on groups that hold live inodes / blocks: the flag then claims the group's bitmap is unused -
+                # a wrong allocation summary that e2fsck has to correct without touching what lives there)
+                new = old ^ [4, 1, 4, 2, 1][val % 5]
+                # INODE_UNINIT on group 0 (root and the reserved inodes live there) is known finding F-C05-3: excluded by construction except for one draw in 25
+                if g == 0 and (new & 1) and not (old & 1) and val % 25 != 1: new = old ^ 4
                 img.wr(base + 0x12, new.to_bytes(2, 'little'))
                 if fixup: img.fix_gd(g)
                 desc.append('gd[%d].flags %#x->%#x%s' % (g, old, new, ' +csum' if fixup else ''))
